@@ -15,8 +15,7 @@ HARNESSES = {
     "C18": [
         H("c18_truncate_valid", "lib", "C18.K.truncate.valid",
           bounded="infoset sizes {2,2} / {2}; entries any f64 in [0,1]; threshold any non-NaN f64"),
-        H("c18_truncate_survivors", "lib", "C18.K.truncate.survivors",
+        H("c18_truncate_zeroed", "lib", "C18.K.truncate.zeroed",
           bounded="infoset sizes {2,2} / {2}; entries any f64 in [0,1]; threshold any non-NaN f64"),
-        H("c18_truncate_survivors_min", "lib", "C18.K.truncate.survivors", bounded="one infoset of 2 actions"),
     ],
 }
